@@ -1698,9 +1698,9 @@ bool isSameExpression(bool macro, const Token *tok1, const Token *tok2, const Se
                     compare = true;
                 } else if (value->intvalue == 0 && !exprIsNot && Token::simpleMatch(condTok, "!=")) {
                     compare = true;
-                } else if (value->intvalue != 0 && exprIsNot && Token::simpleMatch(condTok, "!=")) {
+                } else if (value->intvalue == 1 && exprIsNot && Token::simpleMatch(condTok, "!=")) {
                     compare = true;
-                } else if (value->intvalue != 0 && !exprIsNot && Token::simpleMatch(condTok, "==")) {
+                } else if (value->intvalue == 1 && !exprIsNot && Token::simpleMatch(condTok, "==")) {
                     compare = true;
                 }
             }
